@@ -346,6 +346,17 @@ class VM:
                 so.add(c)
                 open(f'/tmp/mir/slow_{self.queries}.smt2', 'w').write(so.to_smt2())
         if r == z3.unknown:
+            # the shared solver has a short per-query limit; under CPU contention string queries that normally take
+            # milliseconds hit it - retry once in a fresh solver with a generous limit before giving up
+            s2 = z3.Solver()
+            s2.set('timeout', 240000)
+            s2.add(*st.pc)
+            s2.add(c)
+            t0 = time.time()
+            r = s2.check()
+            self.solver_time += time.time() - t0
+            self.queries += 1
+        if r == z3.unknown:
             raise Unsupported('solver returned unknown')
         return r == z3.sat
 
